@@ -9,14 +9,14 @@
 //                                           check.buffer after init/update*/finish>", state pre-filled with 0xAA
 //   small32 <init> <hex> / small64 ...  -> HAVE_SMALL implementation (crc32_small.c / crc64_small.c)
 //   smalltab32 / smalltab64             -> the 256 table entries those files generate at run time
+//   crc32g <init> <hex> / crc64g ...    -> as crc32/crc64, the buffer ending at a page end followed by a PROT_NONE page
 //   huge <fn> <size> <seed>             -> "<one call over the whole buffer> <same buffer in ~1 GiB pieces>" for
 //                                           fn = crc32pub|crc32arch|crc32gen|crc64pub|crc64arch|crc64gen|check1|check4|sha256 (one call only)|
 //                                           sha256p (lzma_sha256_update in 64 MiB pieces only):
 //                                           a (4 GiB + 16 KiB) MAP_NORESERVE mapping, 8 KiB of xorshift bytes at the
 //                                           start and at the end of the first <size> bytes, zeros in between
-#include "hproto.h"
+#include "c14_util.h"
 #include "check.h"
-#include <sys/mman.h>
 
 uint32_t h_crc32_generic(const uint8_t *, size_t, uint32_t);
 uint32_t h_crc32_arch(const uint8_t *, size_t, uint32_t);
@@ -28,27 +28,6 @@ uint32_t h_small32(const uint8_t *, size_t, uint32_t);
 uint64_t h_small64(const uint8_t *, size_t, uint64_t);
 uint32_t h_small32_tab(unsigned);
 uint64_t h_small64_tab(unsigned);
-
-// Like hp_hex_aligned, but the buffer ENDS exactly at the end of the allocation, so that ASan sees any read past
-// the last byte (the alignment prologues of the generic CRC code must never run past a short buffer).
-static uint8_t *hex_aligned_exact(const char *s, size_t *len, size_t align, void **base)
-{
-	size_t n = (strcmp(s, "-") == 0) ? 0 : strlen(s) / 2;
-	size_t k = align % 64;
-	uint8_t *b = NULL;
-	// b is 64-byte aligned, p = b + k, and p + n is the end of the allocation
-	if (posix_memalign((void **)&b, 64, k + n + (k + n == 0 ? 1 : 0)) != 0)
-		abort();
-	*base = b;
-	uint8_t *p = b + k;
-	for (size_t i = 0; i < n; ++i) {
-		int hi = hp_hexval(s[2 * i]), lo = hp_hexval(s[2 * i + 1]);
-		if (hi < 0 || lo < 0) { fprintf(stderr, "bad hex\n"); exit(3); }
-		p[i] = (uint8_t)(hi * 16 + lo);
-	}
-	*len = n;
-	return p;
-}
 
 #define HUGE_MAP ((size_t)4 * 1024 * 1024 * 1024 + 16384)
 #define HUGE_EDGE 8192
@@ -192,6 +171,17 @@ int main(void)
 				printf("%" PRIu64 " %" PRIu64 " %" PRIu64 "\n", h_crc64_generic(p, n, init),
 						h_crc64_arch(p, n, init), h_crc64_public(p, n, init));
 			free(base);
+		} else if ((!strcmp(op, "crc32g") || !strcmp(op, "crc64g")) && l.ntok == 3) {
+			size_t n, maplen; void *base;
+			uint8_t *p = hex_page_end(l.tok[2], &n, &base, &maplen);
+			uint64_t init = hp_u64(l.tok[1]);
+			if (op[3] == '3')
+				printf("%" PRIu32 " %" PRIu32 " %" PRIu32 "\n", h_crc32_generic(p, n, (uint32_t)init),
+						h_crc32_arch(p, n, (uint32_t)init), h_crc32_public(p, n, (uint32_t)init));
+			else
+				printf("%" PRIu64 " %" PRIu64 " %" PRIu64 "\n", h_crc64_generic(p, n, init),
+						h_crc64_arch(p, n, init), h_crc64_public(p, n, init));
+			munmap(base, maplen);
 		} else if ((!strcmp(op, "crc32s") || !strcmp(op, "crc64s")) && l.ntok >= 2) {
 			uint64_t c = hp_u64(l.tok[1]);
 			for (int i = 2; i < l.ntok; ++i) {
